@@ -166,6 +166,16 @@ func DefaultParamSets(k Kind) []Params {
 		for _, s := range AV1SeqHdrVectors {
 			out = append(out, Params{Seq: s})
 		}
+		// 3840x2160 10-bit sequence headers with a colour description whose three fields differ
+		// (HDR10 9/16/9, HLG full range 9/18/9, 5/6/5, 1/13/6 full range)
+		for _, s := range [][]byte{
+			{0x0a, 0x0f, 0x00, 0x00, 0x00, 0x6a, 0xef, 0xbf, 0xe1, 0xbd, 0xff, 0xf9, 0xd0, 0x91, 0x00, 0x90, 0x40},
+			{0x0a, 0x0f, 0x00, 0x00, 0x00, 0x6a, 0xef, 0xbf, 0xe1, 0xbd, 0xff, 0xf9, 0xd0, 0x91, 0x20, 0x98, 0x40},
+			{0x0a, 0x0f, 0x00, 0x00, 0x00, 0x6a, 0xef, 0xbf, 0xe1, 0xbd, 0xff, 0xf9, 0xd0, 0x50, 0x60, 0x50, 0x40},
+			{0x0a, 0x0f, 0x00, 0x00, 0x00, 0x6a, 0xef, 0xbf, 0xe1, 0xbd, 0xff, 0xf9, 0xd0, 0x10, 0xd0, 0x68, 0x40},
+		} {
+			out = append(out, Params{Seq: s})
+		}
 	case VP9:
 		out = []Params{
 			{VP9: VP9Params{W: 1920, H: 1080, Profile: 0, BitDepth: 8}},
